@@ -314,6 +314,7 @@ func (it *Interp) runPath(fn *ssa.Function, res *UnitResult) (stop bool) {
 	it.mainDeferFr = nil
 	it.sched = newSched(it)
 	it.callStack = nil
+	it.tt.active = map[int32]bool{}
 	it.ex.UserChoices = nil
 	it.panicStack = nil
 	defer func() {
@@ -354,7 +355,7 @@ func (it *Interp) runPath(fn *ssa.Function, res *UnitResult) (stop bool) {
 }
 
 func cloneTable(b *TermTable) *TermTable {
-	tt := &TermTable{tab: make(map[termKey]*Term, len(b.tab)+1024), vmap: map[string]*Term{}, tru: b.tru, fls: b.fls}
+	tt := &TermTable{tab: make(map[termKey]*Term, len(b.tab)+1024), vmap: map[string]*Term{}, tru: b.tru, fls: b.fls, active: map[int32]bool{}}
 	for k, v := range b.tab {
 		tt.tab[k] = v
 	}
@@ -403,6 +404,9 @@ func main() {
 	}
 	opt.Pkgs = strings.Split(pkgs, ",")
 	debug.SetMaxStack(1 << 30)
+	if os.Getenv("SYMGO_DEBUG_UNSAT") != "" {
+		debugUnsat = map[string]int{}
+	}
 	os.Setenv("PATH", "/opt/veriftools/go1.26.8/bin:"+os.Getenv("PATH"))
 	os.Setenv("GOTOOLCHAIN", "local")
 	os.Setenv("GOFLAGS", "-mod=mod")
@@ -471,6 +475,20 @@ func main() {
 	}
 	close(ch)
 	wg.Wait()
+	if debugUnsat != nil {
+		type kv struct {
+			k string
+			n int
+		}
+		var l []kv
+		for k, n := range debugUnsat {
+			l = append(l, kv{k, n})
+		}
+		sort.Slice(l, func(i, j int) bool { return l[i].n > l[j].n })
+		for i := 0; i < len(l) && i < 40; i++ {
+			fmt.Fprintf(os.Stderr, "%6d %s\n", l[i].n, l[i].k)
+		}
+	}
 	out := map[string]interface{}{"units": results, "load_s": loadS, "wall_s": time.Since(t0).Seconds(), "init_partial": sh.initPart, "solver": opt.Solver, "unwind": opt.Unwind}
 	b, _ := json.MarshalIndent(out, "", " ")
 	if opt.Out != "" {
@@ -511,18 +529,28 @@ func expandParams(fn *ssa.Function, spec string) []unitInst {
 			if !re.MatchString(fn.Name()) {
 				continue
 			}
-			var name string
-			var lo, hi int
-			step := 1
-			kv := strings.SplitN(part[i+1:], "=", 2)
-			name = kv[0]
-			if n, _ := fmt.Sscanf(kv[1], "%d..%d/%d", &lo, &hi, &step); n < 3 {
-				step = 1
-				fmt.Sscanf(kv[1], "%d..%d", &lo, &hi)
-			}
-			var out []unitInst
-			for v := lo; v <= hi; v += step {
-				out = append(out, unitInst{fn: fn, params: map[string]int{name: v}})
+			out := []unitInst{{fn: fn, params: map[string]int{}}}
+			for _, one := range strings.Split(part[i+1:], ",") {
+				var lo, hi int
+				step := 1
+				kv := strings.SplitN(one, "=", 2)
+				name := kv[0]
+				if n, _ := fmt.Sscanf(kv[1], "%d..%d/%d", &lo, &hi, &step); n < 3 {
+					step = 1
+					fmt.Sscanf(kv[1], "%d..%d", &lo, &hi)
+				}
+				var nxt []unitInst
+				for _, base := range out {
+					for v := lo; v <= hi; v += step {
+						m := map[string]int{}
+						for k, x := range base.params {
+							m[k] = x
+						}
+						m[name] = v
+						nxt = append(nxt, unitInst{fn: fn, params: m})
+					}
+				}
+				out = nxt
 			}
 			return out
 		}
@@ -587,6 +615,18 @@ func doEnum(prog *ssa.Program, targets []*ssa.Package) {
 		}
 	}
 	sort.Slice(out, func(i, j int) bool { return out[i].Pkg+out[i].Name < out[j].Pkg+out[j].Name })
-	b, _ := json.MarshalIndent(out, "", " ")
+	var lts []string
+	for _, p := range targets {
+		for name, m := range p.Members {
+			if g, ok := m.(*ssa.Global); ok {
+				t := g.Type().Underlying().(*types.Pointer).Elem()
+				if nt, ok := t.(*types.Named); ok && nt.Obj().Name() == "LayerType" && nt.Obj().Pkg() != nil && nt.Obj().Pkg().Path() == modPath && strings.HasPrefix(name, "LayerType") {
+					lts = append(lts, name)
+				}
+			}
+		}
+	}
+	sort.Strings(lts)
+	b, _ := json.MarshalIndent(map[string]interface{}{"types": out, "layertypes": lts}, "", " ")
 	os.Stdout.Write(b)
 }
